@@ -526,6 +526,9 @@ class Certificate:
         bool
             True if the certificate is valid, False otherwise.
         """
+        # The version field is not covered by the certificate's signature: only version 3 is valid
+        if self.certificate.get("version") != 3:
+            return False
         # §6: verifyKeyIndicator must match certificate type
         cert_type = self.certificate.get("type")
         vki = self.certificate.get("toBeSigned", {}).get("verifyKeyIndicator")
